@@ -399,6 +399,17 @@ def constant_bound_guards(fn, bb, local):
                     if {(o.kind, o.bb, o.arg, o.idx) for o in xo} & roots:
                         out.append((sb, cd.rv["op"], y["c"].get("named") or y["c"].get("int")))
                         continue
+                    # a bound on `value - xs.len()`: what the value exceeds the constant by is backed by memory that
+                    # already exists (`count - current.len() > 100000 => Err`, then `current.resize(count, ..)`)
+                    hit = False
+                    for o in xo:
+                        if o.kind == "bin" and o.rv.get("op") in ("Sub", "SubWithOverflow") and "c" not in o.rv["a"] and "c" not in o.rv["b"]:
+                            if ({(q.kind, q.bb, q.arg, q.idx) for q in flow.origins(fn, o.rv["a"])} & roots) and any(
+                                    q.kind == "call" and q.call.name.split("::")[-1] == "len" for q in flow.origins(fn, o.rv["b"])):
+                                hit = True
+                    if hit:
+                        out.append((sb, cd.rv["op"], y["c"].get("named") or y["c"].get("int")))
+                        continue
                     # a bound on a checked product / sum of the value bounds the value (where the other operand is
                     # zero nothing is allocated or iterated)
                     for o in xo:
